@@ -17,54 +17,122 @@ theorem getD_pySlice (row : List Int) (a b : Int) (x : Nat) (ha : 0 ≤ a) (hb :
   simp only [List.getD_eq_getElem?_getD, List.getElem?_drop, List.getElem?_take]
   rw [if_pos (by omega)]
 
-theorem length_addRows (a b : List Int) (n : Nat) (ha : a.length = n) (hb : b.length = n) :
-    (addRows a b).length = n := by
-  unfold addRows; simp [ha, hb]
+/-- specification side of a reduction: the entries of one column combined in order -/
+def foldCol (red : Reduce) : List Int → Int
+  | [] => 0
+  | v :: vs => vs.foldl red.op v
 
-theorem getD_addRows (a b : List Int) (n x : Nat) (ha : a.length = n) (hb : b.length = n) (hx : x < n) :
-    (addRows a b).getD x 0 = a.getD x 0 + b.getD x 0 := by
-  unfold addRows
+theorem getD_zipWith (f : Int → Int → Int) (a b : List Int) (n x : Nat) (ha : a.length = n) (hb : b.length = n) (hx : x < n) :
+    (List.zipWith f a b).getD x 0 = f (a.getD x 0) (b.getD x 0) ∧ (List.zipWith f a b).length = n := by
+  refine ⟨?_, by simp [ha, hb]⟩
   simp only [List.getD_eq_getElem?_getD, List.getElem?_zipWith]
   rw [List.getElem?_eq_getElem (by omega), List.getElem?_eq_getElem (by omega)]
   simp
 
-theorem foldl_addRows_getD (n x : Nat) (hx : x < n) : ∀ (rs : List (List Int)) (acc : List Int),
+theorem foldl_zipWith_getD (f : Int → Int → Int) (n x : Nat) (hx : x < n) : ∀ (rs : List (List Int)) (acc : List Int),
     acc.length = n → (∀ r ∈ rs, r.length = n) →
-    (rs.foldl addRows acc).length = n ∧
-      (rs.foldl addRows acc).getD x 0 = acc.getD x 0 + (rs.map (·.getD x 0)).sum
+    (rs.foldl (List.zipWith f) acc).length = n ∧
+      (rs.foldl (List.zipWith f) acc).getD x 0 = (rs.map (·.getD x 0)).foldl f (acc.getD x 0)
   | [], acc, ha, _ => by simp [ha]
   | r :: rs, acc, ha, hr => by
     have hr0 := hr r (by simp)
-    have ih := foldl_addRows_getD n x hx rs (addRows acc r) (length_addRows _ _ n ha hr0)
-      (fun q hq => hr q (by simp [hq]))
-    simp only [List.foldl_cons, List.map_cons, List.sum_cons]
+    have hz := getD_zipWith f acc r n x ha hr0 hx
+    have ih := foldl_zipWith_getD f n x hx rs (List.zipWith f acc r) hz.2 (fun q hq => hr q (by simp [hq]))
+    simp only [List.foldl_cons, List.map_cons]
     refine ⟨ih.1, ?_⟩
-    rw [ih.2, getD_addRows _ _ n x ha hr0 hx]; omega
+    rw [ih.2, hz.1]
 
-/-- `np.sum(rows, axis=0)[x]` is the sum of the `x`-th entries. -/
-theorem sumRows_getD (rows : List (List Int)) (n x : Nat) (hlen : ∀ r ∈ rows, r.length = n) (hx : x < n) :
-    (sumRows rows).getD x 0 = (rows.map (·.getD x 0)).sum := by
+theorem foldRows_getD (red : Reduce) (rows : List (List Int)) (n x : Nat) (hlen : ∀ r ∈ rows, r.length = n) (hx : x < n) :
+    (foldRows red rows).getD x 0 = foldCol red (rows.map (·.getD x 0)) := by
   cases rows with
-  | nil => simp [sumRows]
+  | nil => simp [foldRows, foldCol]
   | cons r rs =>
-    have := foldl_addRows_getD n x hx rs r (hlen r (by simp)) (fun q hq => hlen q (by simp [hq]))
-    simp only [sumRows, List.map_cons, List.sum_cons]; exact this.2
+    have := foldl_zipWith_getD red.op n x hx rs r (hlen r (by simp)) (fun q hq => hlen q (by simp [hq]))
+    simp only [foldRows, foldCol, List.map_cons]; exact this.2
 
-theorem sumRows_length (rows : List (List Int)) (n : Nat) (hlen : ∀ r ∈ rows, r.length = n) (hne : rows ≠ []) :
-    (sumRows rows).length = n := by
-  cases rows with
+theorem foldCol_sum (l : List Int) : foldCol .sum l = l.sum := by
+  cases l with
+  | nil => rfl
+  | cons v vs =>
+    simp only [foldCol, List.sum_cons]
+    have : ∀ (vs : List Int) (a : Int), vs.foldl Reduce.sum.op a = a + vs.sum := by
+      intro vs
+      induction vs with
+      | nil => intro a; simp
+      | cons w ws ih => intro a; simp only [List.foldl_cons, List.sum_cons, ih, Reduce.op]; omega
+    exact this vs v
+
+theorem foldCol_max (l : List Int) (hne : l ≠ []) : foldCol .max l ∈ l ∧ ∀ v ∈ l, v ≤ foldCol .max l := by
+  cases l with
   | nil => exact absurd rfl hne
-  | cons r rs =>
-    by_cases hn : 0 < n
-    · exact (foldl_addRows_getD n 0 hn rs r (hlen r (by simp)) (fun q hq => hlen q (by simp [hq]))).1
-    · have h0 : n = 0 := by omega
-      subst h0
-      have : ∀ (rs : List (List Int)) (acc : List Int), acc.length = 0 → (rs.foldl addRows acc).length = 0 := by
-        intro rs
-        induction rs with
-        | nil => intro acc h; simpa using h
-        | cons q qs ih => intro acc h; simp only [List.foldl_cons]; apply ih; unfold addRows; simp [h]
-      exact this rs r (hlen r (by simp))
+  | cons v vs =>
+    have : ∀ (vs : List Int) (a : Int), (vs.foldl Reduce.max.op a = a ∨ vs.foldl Reduce.max.op a ∈ vs) ∧
+        a ≤ vs.foldl Reduce.max.op a ∧ ∀ u ∈ vs, u ≤ vs.foldl Reduce.max.op a := by
+      intro vs
+      induction vs with
+      | nil => intro a; simp
+      | cons w ws ih =>
+        intro a
+        simp only [List.foldl_cons]
+        obtain ⟨h1, h2, h3⟩ := ih (Reduce.max.op a w)
+        have hop : (Reduce.max.op a w = a ∨ Reduce.max.op a w = w) ∧ a ≤ Reduce.max.op a w ∧ w ≤ Reduce.max.op a w := by
+          simp only [Reduce.op]; split <;> omega
+        refine ⟨?_, by omega, ?_⟩
+        · rcases h1 with h1 | h1
+          · rcases hop.1 with h | h
+            · left; rw [h1, h]
+            · right; rw [h1, h]; simp
+          · right; exact List.mem_cons_of_mem _ h1
+        · intro u hu
+          rcases List.mem_cons.mp hu with rfl | hu
+          · omega
+          · exact h3 u hu
+    obtain ⟨h1, h2, h3⟩ := this vs v
+    simp only [foldCol]
+    refine ⟨?_, ?_⟩
+    · rcases h1 with h1 | h1
+      · rw [h1]; simp
+      · exact List.mem_cons_of_mem _ h1
+    · intro u hu
+      rcases List.mem_cons.mp hu with rfl | hu
+      · exact h2
+      · exact h3 u hu
+
+theorem foldCol_min (l : List Int) (hne : l ≠ []) : foldCol .min l ∈ l ∧ ∀ v ∈ l, foldCol .min l ≤ v := by
+  cases l with
+  | nil => exact absurd rfl hne
+  | cons v vs =>
+    have : ∀ (vs : List Int) (a : Int), (vs.foldl Reduce.min.op a = a ∨ vs.foldl Reduce.min.op a ∈ vs) ∧
+        vs.foldl Reduce.min.op a ≤ a ∧ ∀ u ∈ vs, vs.foldl Reduce.min.op a ≤ u := by
+      intro vs
+      induction vs with
+      | nil => intro a; simp
+      | cons w ws ih =>
+        intro a
+        simp only [List.foldl_cons]
+        obtain ⟨h1, h2, h3⟩ := ih (Reduce.min.op a w)
+        have hop : (Reduce.min.op a w = a ∨ Reduce.min.op a w = w) ∧ Reduce.min.op a w ≤ a ∧ Reduce.min.op a w ≤ w := by
+          simp only [Reduce.op]; split <;> omega
+        refine ⟨?_, by omega, ?_⟩
+        · rcases h1 with h1 | h1
+          · rcases hop.1 with h | h
+            · left; rw [h1, h]
+            · right; rw [h1, h]; simp
+          · right; exact List.mem_cons_of_mem _ h1
+        · intro u hu
+          rcases List.mem_cons.mp hu with rfl | hu
+          · omega
+          · exact h3 u hu
+    obtain ⟨h1, h2, h3⟩ := this vs v
+    simp only [foldCol]
+    refine ⟨?_, ?_⟩
+    · rcases h1 with h1 | h1
+      · rw [h1]; simp
+      · exact List.mem_cons_of_mem _ h1
+    · intro u hu
+      rcases List.mem_cons.mp hu with rfl | hu
+      · exact h2
+      · exact h3 u hu
 
 theorem swapAxes_getElem? (n : Nat) (lines : List (List Int)) (x : Nat) (hx : x < n) :
     (swapAxes n lines)[x]? = some (lines.map fun l => l.getD x 0) := by
@@ -75,12 +143,12 @@ theorem swapAxes_length (n : Nat) (lines : List (List Int)) : (swapAxes n lines)
   unfold swapAxes; simp
 
 
-theorem toKymo_inv (s : Stack) (pages : List Page) (raw : Int → List (List Int)) (x1 y1 x2 y2 w : Int) (k : Kymo)
-    (hk : s.toKymo pages raw (some (x1, y1, x2, y2)) w = some (.ok k)) :
+theorem toKymo_inv (s : Stack) (pages : List Page) (raw : Int → List (List Int)) (x1 y1 x2 y2 w : Int) (red : Reduce)
+    (k : Kymo) (hk : s.toKymo pages raw (some (x1, y1, x2, y2)) w red = some (.ok k)) :
     ∃ r r', s.ranges pages false false = some r ∧ kymoTimes r = .ok (k.lineTime, k.exposure, k.start) ∧
       y1 = y2 ∧ 0 ≤ w ∧ 0 ≤ y1 - w ∧ y2 + w + 1 ≤ s.roi.height ∧
       s.roi.crop (some (max x1 0)) (some (max (x2 + 1) 0)) (some (y1 - w)) (some (y2 + w + 1)) = .ok r' ∧
-      k.image = swapAxes r'.width.toNat (s.frames.map fun p => kymoLine w (r'.apply (raw p))) := by
+      k.image = swapAxes r'.width.toNat (s.frames.map fun p => kymoLine red w (r'.apply (raw p))) := by
   unfold Stack.toKymo at hk
   cases hr : s.ranges pages false false with
   | none => rw [hr] at hk; cases hk
